@@ -26,7 +26,7 @@
    tier, the public genesis hashes of Westend, Paseo and Kusama (state version 0 only). *)
 From Common Require Import Bytes Blake2b.
 From Trie Require Import Nibbles Node Encode Model Spec.
-From C01 Require Import Model Proofs.
+From C01 Require Import Model Proofs ProofsEnc.
 From C01 Require Gen.
 
 (* for every history that does not meet the guard: the node's root is the spec root of the map *)
@@ -168,6 +168,80 @@ Example C01_known_answer_child_threshold :
   merkle_value blake2b_256 V0 (leaf 28%nat) = enc blake2b_256 V0 (leaf 28%nat) /\
   merkle_value blake2b_256 V0 (leaf 29%nat) = blake2b_256 (enc blake2b_256 V0 (leaf 29%nat)).
 Proof. vm_compute. repeat split; reflexivity. Qed.
+
+
+(* ---------------- round 3: the encoding, clause by clause, from the wording of the Polkadot
+   specification (node header, partial key, children bitmap, subvalue, children); proofs in ProofsEnc.v.
+   These theorems are about Trie.Encode.enc — the encoder of the specification root — and do not
+   mention the Go code: they are the independent check of the "encoding half" of the statement. -------- *)
+(* variant bits of the first header byte: 01 leaf, 10 branch, 11 branch with value, 001 / 0001 hashed subvalue *)
+Theorem C01_law_header_variant : forall is_branch has_value hashed n,
+  let b := first_byte (node_header is_branch has_value hashed n) in
+  match is_branch, has_value, hashed with
+  | false, _, false => (b / 64 = 1)%N
+  | false, _, true => (b / 32 = 1)%N
+  | true, false, _ => (b / 64 = 2)%N
+  | true, true, false => (b / 64 = 3)%N
+  | true, true, true => (b / 16 = 1)%N
+  end.
+Proof. exact law_header_variant. Qed.
+Print Assumptions C01_law_header_variant.
+
+(* partial key length: in the low k bits if < 2^k - 1, else all ones + bytes of 255 + one byte < 255 *)
+Theorem C01_law_header_length : forall bits mask n,
+  In mask [15; 31; 63]%N -> (bits + mask < 256)%N -> (bits mod (mask + 1) = 0)%N ->
+  exists b0 rest, header bits mask n = b0 :: rest /\
+    (b2n b0 mod (mask + 1) = N.min n mask)%N /\
+    ((n < mask)%N -> rest = []) /\
+    ((mask <= n)%N -> exists q last, rest = repeat (n2b 255) q ++ [last] /\ (b2n last < 255)%N /\
+                  (n = mask + 255 * N.of_nat q + b2n last)%N).
+Proof. exact law_header_length. Qed.
+Print Assumptions C01_law_header_length.
+
+(* partial key: two nibbles per byte, high first; an odd count gets a leading zero nibble *)
+Theorem C01_law_key_packing : forall k : key, nibbles_ok k ->
+  key_le_to_nibbles (nibbles_to_key_le k) = if Nat.even (length k) then k else 0%nat :: k.
+Proof. exact law_key_packing. Qed.
+Print Assumptions C01_law_key_packing.
+
+(* children bitmap: two bytes little endian, bit i set iff child i is present *)
+Theorem C01_law_children_bitmap : forall cs, length cs = 16%nat ->
+  length (children_bitmap cs) = 2%nat /\
+  forall j, (j < 16)%nat -> N.testbit (le_val (children_bitmap cs)) (N.of_nat j) = is_some (child_at cs j).
+Proof. exact law_children_bitmap. Qed.
+Print Assumptions C01_law_children_bitmap.
+
+(* subvalue: SCALE-encoded value, or its hash exactly when version 1 and longer than 32 bytes *)
+Theorem C01_law_subvalue : forall H ver v,
+  enc_value H ver v =
+  match ver with V0 => scale_bytes v | V1 => if (32 <? length v)%nat then H v else scale_bytes v end.
+Proof. exact law_subvalue. Qed.
+Print Assumptions C01_law_subvalue.
+
+(* SCALE compact length: value * 4 + mode, little endian, in 1 / 2 / 4 bytes *)
+Theorem C01_law_compact : forall n, (n < 2 ^ 30)%N ->
+  (le_val (compact n) = 4 * n + (if n <? 64 then 0 else if n <? 16384 then 1 else 2))%N /\
+  length (compact n) = if (n <? 64)%N then 1%nat else if (n <? 16384)%N then 2%nat else 4%nat.
+Proof. exact law_compact. Qed.
+Print Assumptions C01_law_compact.
+
+(* a child is referenced by its encoding if shorter than 32 bytes, else by the hash of the encoding *)
+Theorem C01_law_child_reference : forall H ver c,
+  merkle_value H ver c = if (length (enc H ver c) <? 32)%nat then enc H ver c else H (enc H ver c).
+Proof. exact law_child_reference. Qed.
+Print Assumptions C01_law_child_reference.
+
+(* layout of the two node kinds *)
+Theorem C01_law_node_layout : forall H ver pk,
+  (forall v, enc H ver (Leaf pk v) =
+     node_header false true (must_be_hashed ver v) (N.of_nat (length pk)) ++ nibbles_to_key_le pk ++ enc_value H ver v) /\
+  (forall ov cs, enc H ver (Branch pk ov cs) =
+     node_header true (is_some ov) (match ov with Some v => must_be_hashed ver v | None => false end) (N.of_nat (length pk))
+     ++ nibbles_to_key_le pk ++ children_bitmap cs
+     ++ (match ov with Some v => enc_value H ver v | None => [] end)
+     ++ concat (map (fun c => scale_bytes (merkle_value H ver c)) (present cs))).
+Proof. intros H ver pk. split; [exact (law_leaf_layout H ver pk)|exact (law_branch_layout H ver pk)]. Qed.
+Print Assumptions C01_law_node_layout.
 
 (* non-vacuity: a branch with a value and an inlined child; a delete that merges a branch back into
    a leaf; a 64-nibble partial key; version 1 with a 33-byte value *)
